@@ -55,8 +55,11 @@ class Tracker:
         return [(i, k) for i in self.present for k in self.pins[i] if (i, k) not in con]
 
 
-def gen_history(rng: random.Random, nstruct=4, length=12, invalid_p=0.0, max_pins=3):
+def gen_history(rng: random.Random, nstruct=4, length=12, invalid_p=0.0, max_pins=3, scenario=None):
     sizes = [rng.randint(1, max_pins) for _ in range(nstruct)]
+    if scenario == "hub":
+        nstruct = max(nstruct, 3)
+        sizes = [rng.randint(2, max(2, max_pins))] + [rng.randint(1, max_pins) for _ in range(nstruct - 1)]
     comps = []
     for n in sizes:
         comps.append({"n": n, "S": m2j(rand_matrix(rng, n, n, n))})
@@ -96,6 +99,50 @@ def gen_history(rng: random.Random, nstruct=4, length=12, invalid_p=0.0, max_pin
 
     for i in range(min(nstruct, 2)):
         do_add(i)
+    if scenario == "hub":
+        # structure 0 gets links to >= 2 distinct neighbours, is cut (or removed), and the history goes on
+        # around the freed pins: bypass connections, re-adding the hub, exposing, solving
+        for i in range(2, nstruct):
+            do_add(i)
+        nb = list(range(1, nstruct))
+        rng.shuffle(nb)
+        hub_pins = list(range(sizes[0]))
+        rng.shuffle(hub_pins)
+        for k, j in zip(hub_pins, nb):
+            do_connect((0, k), (j, rng.randrange(sizes[j])))
+        if rng.random() < 0.4:
+            free = [p for p in tr.free() if p[0] != 0]
+            if len(free) >= 2 and free[0][0] != free[-1][0]:
+                do_connect(free[0], free[-1])
+        if rng.random() < 0.5:
+            emit(["raise"])
+            for p in tr.free():
+                if p not in tr.mapped.values():
+                    tr.mapped[pname(*p)] = p
+            emit(["solve"])
+        removed = rng.random() < 0.25
+        do_cut(0, remove=removed)
+        follow = rng.choice(["bypass", "readd", "readd_connect", "solve"])
+        free = [p for p in tr.free() if p not in tr.mapped.values()]
+        if follow == "bypass" and len(free) >= 2:
+            x = rng.choice(free)
+            cand = [p for p in free if p[0] != x[0]]
+            if cand:
+                do_connect(x, rng.choice(cand))
+        elif follow in ("readd", "readd_connect") and not removed:
+            do_add(0)
+            if follow == "readd_connect":
+                free = [p for p in tr.free() if p not in tr.mapped.values()]
+                mine = [p for p in free if p[0] == 0]
+                other = [p for p in free if p[0] != 0]
+                if mine and other:
+                    do_connect(rng.choice(mine), rng.choice(other))
+        emit(["raise"])
+        for p in tr.free():
+            if p not in tr.mapped.values():
+                tr.mapped[pname(*p)] = p
+        emit(["solve"])
+        length = len(ops) + rng.randint(0, 5)
     while len(ops) < length:
         r = rng.random()
         if rng.random() < invalid_p:
